@@ -44,7 +44,9 @@ var syncKeys = []struct{ key, label string }{
 	{"atomic.LoadInt32(&c.running", "load-running"},
 	{"atomic.LoadInt32(&c.closed", "load-closed"},
 	{"atomic.StoreInt32(&c.running", "store-running"},
+	{"atomic.StoreInt32(&c.sendFailed", "store-failed"},
 	{"len(c.writeQueue)", "len-queue"},
+	{"atomic.LoadInt32(&c.sendFailed", "load-failed"},
 	{"c.closeErr", "closeerr"},
 	{"c.cancel()", "cancel"},
 	{"c.transport.Close()", "tr-close"},
